@@ -173,12 +173,7 @@ def audit_rules_c13(rep, fb):
     between = [e for e in evals if g.can_reach(g.pos[store[0]['id']], [e['id']]) is not None and g.can_reach(g.pos[e['id']], [notice[0]['id']]) is not None]
     rep.check(not between, 'R13.8', 'invoke|user datum vs notice', locstr(store[0]), 'between the store of the invokeid user datum and beforeInvoking there %s' % (
         'is no evaluation that can fail' if not between else 'are %d evaluations that can fail (first: %s): <invoke><param expr="1 +* 1"/> gets no invoking notices but an uninvoking pair when its state is left' % (len(between), locstr(between[0]))))
-    rep.rule('R13.9', 'no stable-configuration notice without a macrostep: deserialize() of both engines restores the STABLE flag (a snapshot is only taken at a stable point), so the first step after a restore does not announce a stable configuration it has not reached')
-    for eng in ('uscxml::LargeMicroStep', 'uscxml::FastMicroStep'):
-        d = fb.fn(eng + '::deserialize')
-        sets_stable = any(m[0] == 'USCXML_CTX_STABLE' for x in d.walk() for m in (x.get('mac') or []))
-        rep.check(sets_stable, 'R13.9', eng.split('::')[-1] + '::deserialize', d.where(), '%s::deserialize %s' % (eng.split('::')[-1], 'restores STABLE' if sets_stable else
-                  'sets INITIALIZED only: the next step() finds STABLE unset and issues onStableConfiguration with 0 microsteps and no event processed'))
+    stable_restored(rep, fb, 'R13.9')
     rep.rule('R13.10', 'one monitor set per step: the engines (which copy the set at the top of step()) and the content executor (which notifies from inside that step) use the same set')
     be = [f for f in fb.funcs.values() if f.rec == 'uscxml::BasicContentExecutor' and f.d.get('body')]
     live = [n for f in be for n in f.walk() if n.get('callee', {}).get('q', '').endswith('getMonitors')]
@@ -186,6 +181,16 @@ def audit_rules_c13(rep, fb):
         'init' in d_ and any(x.get('callee', {}).get('q', '').endswith('getMonitors') for x in sub(d_['init'])) and '&' not in (d_.get('t') or '') for d_ in n.get('decls', []))]
     rep.check(not (live and copies), 'R13.10', 'monitor set', locstr(live[0]) if live else 'src/uscxml/interpreter/BasicContentExecutor.cpp', 'the engines %s and the content executor %s' % (
         'copy the monitor set once per step' if copies else 'read the live set', 're-reads the LIVE set for every notice (%d sites): a monitor attached from a callback mid-step receives executing-content notices with no enclosing micro-step or state bracket' % len(live) if live else 'is handed the same set'))
+
+
+def stable_restored(rep, fb, rule='R13.9'):
+    """deserialize() of both engines restores STABLE (C13 R13.9; shared with C14)"""
+    rep.rule(rule, 'no stable-configuration notice without a macrostep: deserialize() of both engines restores the STABLE flag (a snapshot is only taken at a stable point), so the first step after a restore does not announce a stable configuration it has not reached')
+    for eng in ('uscxml::LargeMicroStep', 'uscxml::FastMicroStep'):
+        d = fb.fn(eng + '::deserialize')
+        sets_stable = any(m[0] == 'USCXML_CTX_STABLE' for x in d.walk() for m in (x.get('mac') or []))
+        rep.check(sets_stable, rule, eng.split('::')[-1] + '::deserialize', d.where(), '%s::deserialize %s' % (eng.split('::')[-1], 'restores STABLE' if sets_stable else
+                  'sets INITIALIZED only: the next step() finds STABLE unset and issues onStableConfiguration with 0 microsteps and no event processed'))
 
 
 def run(rep, tier):
